@@ -42,3 +42,9 @@ def version_units(world):
 def codec_units(world, which):
     prepare(world)
     return mk(codec_c.units(world, which))
+
+
+def model_units(world):
+    prepare(world)
+    from contracts import model_c
+    return mk(model_c.units(world))
